@@ -54,13 +54,14 @@ def builders():
                   float(r.randrange(0, 1000)), r.randrange(1, 100) / 10, round(r.uniform(9.9, 10.1), 3), round(r.uniform(0, 999.9), 2)]
         spd = speeds[n % len(speeds)]
         # the legal values whose text is all zeros or collides with an "absent" sentinel: midnight, the first day of 2000
-        tm = [datetime.time(0, 0, 0), datetime.time(0, 0, 1), datetime.time(23, 59, 59), datetime.time(10, 0, 0),
+        # (None = no fix time / date, what the parser stores for NULs)
+        tm = [None, datetime.time(0, 0, 0), datetime.time(0, 0, 1), datetime.time(23, 59, 59), datetime.time(10, 0, 0),
               datetime.time(r.randrange(24), r.randrange(60), r.randrange(60)), datetime.time(r.randrange(24), r.randrange(60), r.randrange(60)),
-              datetime.time(r.randrange(24), r.randrange(60), r.randrange(60))][n % 7]
-        dt = [datetime.date(2000, 1, 1), datetime.date(2099, 12, 31), datetime.date(2010, 10, 10), datetime.date(r.randrange(2000, 2100), 2, 28),
+              datetime.time(r.randrange(24), r.randrange(60), r.randrange(60))][n % 8]
+        dt = [None, datetime.date(2000, 1, 1), datetime.date(2099, 12, 31), datetime.date(2010, 10, 10), datetime.date(r.randrange(2000, 2100), 2, 28),
               datetime.date(r.randrange(2000, 2100), r.randrange(1, 13), r.randrange(1, 29)),
               datetime.date(r.randrange(2000, 2100), r.randrange(1, 13), r.randrange(1, 29)),
-              datetime.date(2069, 6, 15), datetime.date(2068, 12, 31), datetime.date(r.randrange(2000, 2100), r.randrange(1, 13), r.randrange(1, 29))][n % 9]
+              datetime.date(2069, 6, 15), datetime.date(2068, 12, 31), datetime.date(r.randrange(2000, 2100), r.randrange(1, 13), r.randrange(1, 29))][n % 10]
         return L.GPSData(data_valid=r.choice(["A", "V"]), greenwich_time=tm, greenwich_date=dt,
                          north_south=r.choice(["N", "S"]), latitude=lat, east_west=r.choice(["E", "W"]), longitude=lon, speed_knots=spd,
                          direction=r.choice([0, 1, 121, 359]))
@@ -68,7 +69,7 @@ def builders():
     out.append(("LP", "StandardRequest", lambda r: L.LocationProtocol(opcode=L.LocationProtocolSpecificService.StandardRequest, request_id=req(r),
                                                                      radio_ip=ip(r), is_reliable=rel(r))))
     out.append(("LP", "StandardReport", lambda r: L.LocationProtocol(opcode=L.LocationProtocolSpecificService.StandardReport, request_id=req(r),
-                                                                    radio_ip=ip(r), result=r.choice([c.value for c in L.LocationProtocolResultCodes]),
+                                                                    radio_ip=ip(r), result=r.choice([c.value for c in L.LocationProtocolResultCodes] + list(L.LocationProtocolResultCodes)),
                                                                     gpsdata=gps(r), is_reliable=rel(r))))
     # ---- TMP
     texts = ["", "A", "Hello", "žluťoučký kůň", "中文" * 40, "x" * 200, " ", "trailing ", " lead", "line\r\n", "\x00nul", "nul\x00", "\u00a0nbsp\u00a0", "\ufeffbom"]
